@@ -22,7 +22,45 @@ F10 = "F10 definition-mode export (default/All/Definitions+Hidden+Optional/Raw) 
 F11 = "F11 definition-mode export of a recursively closed value wraps ALL its conjuncts in _#def (export.go Profile.Def): #D0 & {\"_c\"?: {b: 1}} with open #D0 is printed as {_#def, _#def: {...} & {\"_c\"?: {b: 1}}}; conjuncts that were open become closed, `...` of a plain conjunct re-opens the definition (witness corpus/C07/f11.cue)"
 F12 = "F12 self-contained definition-mode export hoists a reference into a file-level let that points inside the _#def wrapper (`let _schema_9 = _schema`): the text does not compile on its own (witness corpus/C07/f12.cue; repository corpus entries of class dangling-reference-in-hoisted-let)"
 F13 = "F13 value-mode export (Final, `cue eval`) omits an optional field but prints the incomplete reference to it (`r: {a?: 3, b: a}` -> `r: b: a`): the text does not compile on its own (witness corpus/C07/f13.cue; repository corpus entries of class dangling-reference under profile final)"
+F15 = "F15 an error value below an optional field is exported as `_|_ // message`; formatted in a one-line struct the closing brace lands inside the line comment and the text does not parse (witness corpus/C07/f15.cue; the same tree formatted without the comment passes every check)"
+F8 = "F8 (known finding of C01/C05, met through the exporter) definition-mode export embeds struct literals that have pattern constraints as plain literals {{...}}; the evaluator treats an embedded plain literal differently (closedness of embeddings below it is lost): the printed text evaluates to a different value, the same text with the embedded literals spliced into their parent gives the original value"
 F14 = "F14 repository corpus values whose printed text re-evaluates to an error of another class (structural cycle, conflicting values, field not allowed): listed in corpus/C07/testdata_expect.txt, not reduced"
+
+
+def tok_sat(tok, a):
+    """does the atom a (int or the string 's') satisfy one printed/original token"""
+    if tok == "int":
+        return isinstance(a, int)
+    if tok == "uint":
+        return isinstance(a, int) and a >= 0
+    if tok == "string":
+        return a == "s"
+    f = tok.split(":")
+    if f[0] == "range":
+        return isinstance(a, int) and int(f[1]) <= a <= int(f[2])
+    if not isinstance(a, int):
+        return False
+    z = int(f[1])
+    return {"gt": a > z, "ge": a >= z, "lt": a < z, "le": a <= z, "ne": a != z}[f[0]]
+
+
+def bounds_distinguisher(orig, printed):
+    """an atom that the printed conjunction admits and the original does not, or vice versa"""
+    toks = orig.split() + printed.split()
+    pts = set([0])
+    for t in toks:
+        for x in t.split(":")[1:]:
+            try:
+                pts.update([int(x) - 1, int(x), int(x) + 1])
+            except ValueError:
+                pass
+    for a in sorted(pts) + ["s"]:
+        try:
+            if all(tok_sat(t, a) for t in orig.split()) != all(tok_sat(t, a) for t in printed.split()):
+                return a
+        except (KeyError, IndexError, ValueError):
+            return "unparsed-token"
+    return None
 
 
 def read_lines(path):
@@ -59,7 +97,7 @@ def run(ctx):
     exe = vlib.build_model("C07", "extract/C07.v", "ocaml/c07_driver.ml")
     harness, hsecs = vlib.build_harness("c07")
     lap("proof_and_builds_incl_lock_waits")
-    known_text = {"F3": F3, "F10": F10, "F11": F11, "F12": F12, "F13": F13, "F14": F14}
+    known_text = {"F3": F3, "F10": F10, "F11": F11, "F12": F12, "F13": F13, "F14": F14, "F15": F15}
     cov = ctx.coverage
     nviol = [0]
 
@@ -92,7 +130,7 @@ def run(ctx):
         first = p.stdout.split("\n")[0].split(" ")
         verdict = first[1] if len(first) > 1 else "?"
         flags = first[2] if len(first) > 2 else "-"
-        still = not verdict.startswith("OK") or "f3" in flags.split(",")
+        still = not verdict.startswith("OK") or "f3" in flags.split(",") or "f15" in flags.split(",")
         wit[meta.get("finding", "?")] = {"file": os.path.relpath(path, vlib.VERIF), "verdict": verdict, "flags": flags, "still_fails": still}
         if still and meta.get("finding") in known_text:
             ctx.known_finding(known_text[meta["finding"]])
@@ -154,6 +192,12 @@ def run(ctx):
         if "f3" in flags:
             bump("F3-instances")
             ctx.known_finding(F3)
+        if "f8" in flags:
+            bump("F8-instances-through-export")
+            ctx.known_finding(F8)
+        if "f15" in flags:
+            bump("F15-instances")
+            ctx.known_finding(F15)
         if verdict == "OK":
             bump("direct-ok")
             pp["ok"] += 1
@@ -241,8 +285,11 @@ def run(ctx):
             brew += 1
         if a != m:
             bump("bounds-DIFF")
-            violation({"kind": "bounds.go-output-differs-from-range_rewrite", "conjunction": c[2:], "impl_tokens": a, "model_tokens": m,
-                       "what": "export.Simplified.Value(&adt.Conjunction{...}) vs the model proved sound (range_rewrite_sound)"}, no_input=True)
+            dist = bounds_distinguisher(c[2:], a)
+            violation({"kind": "bounds.go-output-differs-from-range_rewrite" + ("-and-admits-different-atoms" if dist is not None else ""),
+                       "conjunction": c[2:], "impl_tokens": a, "model_tokens": m, "distinguishing_atom": dist,
+                       "what": "export.Simplified.Value(&adt.Conjunction{...}) vs the model proved sound (range_rewrite_sound); with a distinguishing atom the printed conjunction is not equivalent to the printed one: the property fails on this value"},
+                      no_input=(dist is None))
     bump("bounds-cases", len(bc))
 
     lap("bounds")
